@@ -20,7 +20,17 @@ def gen(rng, tier, n):
     for i in range(nl):
         # the real Matcher::run (rayon workers) once per appended batch: positions as identities, each once
         yield "M|%s" % ",".join(str(rng.choice([1, 2, 5, 40, 300, 2000])) for _ in range(rng.randint(1, 4)))
-    for i in range(n - 3 * nl):
+    for i in range(nl * 4):
+        # the Header widget over the real pool: header lines arriving in several chunks with draws in between, command re-runs (clear)
+        N = rng.choice([1, 2, 3, 5])
+        ops = []
+        for _ in range(rng.randint(2, 10)):
+            r = rng.random()
+            ops.append("a:%d" % rng.choice([0, 1, 1, 2, N, N + 1]) if r < 0.5 else ("d" if r < 0.85 else "c"))
+        yield "H|%d|%s d" % (N, " ".join(ops))
+    # one append of more than 2^20 items (a batch beyond any plausible internal chunk size), takes summarised
+    yield "P|%d|a:%d ts nn ts a:3 nn ts r ts" % (rng.choice([0, 2]), (1 << 20) + rng.choice([1, 5, 4097]))
+    for i in range(n - 7 * nl - 1):
         N = rng.choice([0, 0, 1, 2, 3, 5, 40])
         ops = []
         for _ in range(rng.randint(1, rng.choice([4, 10, 30, 80]))):
@@ -46,6 +56,9 @@ def nontrivial(case):
         return True
     if case.startswith("M|"):
         return sum(int(x) for x in case.split("|")[1].split(",")) >= 5
+    if case.startswith("H|"):
+        ops = case.rsplit("|", 1)[1].split()
+        return len([o for o in ops if o.startswith("a:")]) >= 2 and ops.count("d") >= 2
     ops = case.rsplit("|", 1)[1].split()
     return len([o for o in ops if o.startswith("a:")]) >= 2 and ops.count("t") >= 2
 
@@ -57,6 +70,8 @@ def histogram_keys(case):
         return ["append-overlapping-take"]
     if case.startswith("M|"):
         return ["matcher-runs"]
+    if case.startswith("H|"):
+        return ["header-widget"] + (["header-widget-rerun"] if " c" in case else [])
     hd, ops = case.rsplit("|", 1)
     ops = ops.split()
     return ["N=" + hd.split("|")[1]] + sorted(set(o.split(":")[0] for o in ops))
